@@ -259,6 +259,18 @@ func (m *roaManager) handleRTRMsg(client *roaClient, state *oc.RpkiServerState, 
 					client.pendingROAs = append(client.pendingROAs, roa)
 				}
 			} else {
+				// An announcement of the same record earlier in this response is
+				// still pending (announcements only take effect at End of Data):
+				// the withdrawal cancels it as well. Deleting from the table alone
+				// would miss it and the record would reappear at End of Data.
+				pending := client.pendingROAs[:0]
+				for _, p := range client.pendingROAs {
+					if p.Family == roa.Family && p.Network.String() == roa.Network.String() && p.Equal(roa) {
+						continue
+					}
+					pending = append(pending, p)
+				}
+				client.pendingROAs = pending
 				m.table.Delete(roa)
 			}
 		case *rtr.RTREndOfData:
